@@ -962,11 +962,20 @@ class SymNumpy:
     def arccos(self, x):
         return _map(_arccos1, x) if (has_sym(x) or active()) else _np.arccos(x)
 
-    def degrees(self, x):
-        return _map(_degrees1, x) if has_sym(x) else _np.degrees(defloat(x))
+    def degrees(self, x, out=None):
+        r = _map(_degrees1, x) if has_sym(x) else _np.degrees(defloat(x))
+        if out is not None:
+            out[...] = r
+            return out
+        return r
 
-    def radians(self, x):
-        return _map(_radians1, x) if has_sym(x) else _np.radians(defloat(x))
+    def radians(self, x, out=None):
+        r = _map(_radians1, x) if has_sym(x) else _np.radians(defloat(x))
+        if out is not None:
+            # numpy semantics: the result is written into `out` (which may be the argument itself) and `out` is returned
+            out[...] = r
+            return out
+        return r
 
     def clip(self, x, lo, hi):
         return _map(lambda v: _clip1(v, lo, hi), x) if has_sym(x) else _np.clip(defloat(x), lo, hi)
